@@ -553,8 +553,11 @@ impl TransportVisitor for VB {
                 }
                 let r = if dead && $name != "drop" { Err("skipped after an earlier panic".to_string()) } else { crate::util::catch(|| $e) };
                 let freed = if $name != "drop" { crate::alloc_watch::disarm() } else { vec![] };
-                if r.is_ok() && !UNATTRIBUTABLE.with(|u| u.get()) {
-                    for h in freed {
+                if r.is_ok() {
+                    // Once the device has named ids the driver cannot attribute, a request the
+                    // driver gives up on may leave device-readable memory posted (the call that
+                    // lent it has failed); memory the device may still *write* is never given up.
+                    for h in freed.into_iter().filter(|h| !UNATTRIBUTABLE.with(|u| u.get()) || h.contains("device-writable")) {
                         viol(&format!("buffer-freed-while-posted:{}", $name), format!("{}: {}", $name, h));
                     }
                 }
